@@ -939,6 +939,14 @@ func witnessNumberString(c *core.Case) {
 	if (e1 == nil) != (e2 == nil) {
 		c.Violation("Unmarshal|struct{json.Number,string}<-object|prior=zero", "pkg=err,std=ok", fmt.Sprintf("Unmarshal({\"N\":\"1e\"}) into struct{N json.Number `json:\",string\"`}: pkg err=%v, std err=%v value=%q", e1, e2, b.N), nil)
 	}
+	// the same through a Decoder whose stream goes on with garbage after the first value
+	const stream = `[{"N":"1_0"}]"}]`
+	var da, db [1]*T
+	e1 = json.NewDecoder(strings.NewReader(stream)).Decode(&da)
+	e2 = stdjson.NewDecoder(strings.NewReader(stream)).Decode(&db)
+	if (e1 == nil) != (e2 == nil) {
+		c.Violation("Decoder|[1]*struct{json.Number,string}<-invalid-json|prior=zero", "pkg=err,std=ok", fmt.Sprintf("Decoder(%s) into [1]*struct{N json.Number `json:\",string\"`}: pkg err=%v, std err=%v", stream, e1, e2), nil)
+	}
 }
 
 // ptrptr-null: null decoded into a multi-level pointer that already points somewhere.
